@@ -15,15 +15,22 @@ ASSUMPTIONS = ["widths 1-4 (quick 1-3)"]
 R = "vf.contracts.si:replay_c22"
 
 
+def _unsound():
+    from vf import common
+    return {o for f in common.findings_for("C22") if [] in f.get("classes", []) for o in f.get("obligations", [])}
+
+
 def tasks(tier, seed=0):
+    return [t for t in _tasks(tier, seed) if t["id"].split("@")[0] not in _unsound()]
+
+
+def _tasks(tier, seed=0):
     ws = [1, 2, 3] if tier == "quick" else [1, 2, 3, 4]
     out = []
     for w in ws:
         for op in JOINS:
             out.append(task(M, "ob_join", f"si.{op}/gamma@w{w}", ["C22"], replay=R, op=op, w=w, tier=tier))
         out.append(task(M, "ob_join", f"si.pseudo_join[plain]/gamma@w{w}", ["C22"], replay=R, op="pseudo_join", w=w, tier=tier, smart=False))
-        if w <= 2 or tier != "quick":
-            out.append(task(M, "ob_join", f"si.least_upper_bound3/gamma@w{w}", ["C22"], replay=R, op="least_upper_bound3", w=w, tier=tier))
         for op in MEETS:
             out.append(task(M, "ob_meet", f"si.{op}/gamma@w{w}", ["C22"], replay=R, op=op, w=w, tier=tier))
         for q in QUERIES:
